@@ -173,6 +173,30 @@ def check(run, model, tier):
     ok = cc is not None and cc[0] >= 1 and sc == (0, 0)
     run.inst('CONSUMER.exit', re_, 'the stop item clears the run flag and is not dispatched', ok,
              '' if ok else 'on the stop item the thread clears its flag %s times and steps %s times' % (cc, sc), node=st.ast, obligation=True)
+    # stop() clears the run flag; the thread must notice before it takes another step: every way from one step to the next passes a test of the run flag
+    flagtests = {t for t in gr.nodes if t.kind == 'test' and flagp and any(isinstance(x, ast.Call) and isinstance(x.func, ast.Attribute) and x.func.attr == 'is_set'
+                                                                            and norm(x.func.value) == flagp for x in ast.walk(t.ast))}
+
+    def next_step_avoiding(a):
+        seen, todo = {a}, [a]
+        while todo:
+            n = todo.pop()
+            for m, _l in gr.succ[n]:
+                if m in flagtests:
+                    continue
+                if m in steps:
+                    return m
+                if m in seen:
+                    continue
+                seen.add(m)
+                todo.append(m)
+        return None
+    for sn in steps:
+        hit = next_step_avoiding(sn)
+        run.inst('CONSUMER.exit', re_, 'the run flag is re-read between two steps', hit is None,
+                 '' if hit is None else ('after a step (%s) the consumer thread can take the next step without testing its run flag %s in between: a stop() issued by a handler while more '
+                                         'events are queued behind it does not end the thread after the current step - the queued events are dispatched anyway'
+                                         % (norm(sn.ast if sn.kind == 'stmt' else sn.stmt)[:40], flagp)), node=sn.ast if sn.kind == 'stmt' else None, obligation=True)
     # the stop item is compared on the head of the queue the consumer pops from
     st_txt = norm(expand_locals(st.ast, re_.node))
     ok = '[0]' in st_txt and queues.consumer_end(model) == 'left'
